@@ -366,5 +366,21 @@ class Repo:
                         fields.add(node.attr)
         return fields
 
+    def init_value_expr(self, c, name):
+        """the expression(s) assigned to ``self.<name>`` in the __init__ methods along the MRO (for attributes a contract's shape does not describe)"""
+        out = []
+        for k in self.mro(c):
+            if not isinstance(k, ClassInfo):
+                continue
+            init = k.members.get("__init__")
+            if isinstance(init, FunctionInfo):
+                selfname = init.node.args.args[0].arg
+                for node in ast.walk(init.node):
+                    if isinstance(node, ast.Assign):
+                        for t in node.targets:
+                            if isinstance(t, ast.Attribute) and isinstance(t.value, ast.Name) and t.value.id == selfname and t.attr == name:
+                                out.append((init, node.value))
+        return out
+
     def is_subclass(self, c, other):
         return other in self.mro(c)
